@@ -25,11 +25,12 @@ class MTSP(Adapter):
     has_checker = False
     pad_steps = 2
     properties = ("C01", "C02", "C03", "C04", "C05")
-    # Solo C03 (model reward = objective) is left out: the model transcribes the cost_type="sum"
-    # reward of the code, which differs from the objective on almost every episode (finding);
-    # TLC would stop at the first such state and the behaviour sets would be incomplete.  The C03
-    # verdict comes from the monitors on the real executions (M_C03, replay-reward).
-    solo_invariants = ("FamilyOK", "C01", "C02a", "C02c", "PadStays", "Emit")
+    # NOTE the Solo MODEL itself fails invariant C03 on cost_type="sum" instances (it transcribes
+    # the code's "same as TSP" reward): reported by the pipeline as a model-invariant note next to the
+    # real-code C03 verdicts.
+
+    def violation_class(self, inst, monitor):
+        return inst["variant"]
 
     def family(self, tier, seed=0):
         insts = []
